@@ -100,6 +100,11 @@ theorem pEx_deg : pEx.degree < (2 : ℕ) := by
   refine max_lt (lt_of_le_of_lt degree_C_le (by norm_num)) ?_
   refine lt_of_le_of_lt (degree_C_mul_X_le _) (by norm_num)
 
+theorem lin_deg (a b : ℚ) : (C a + C b * X : ℚ[X]).degree < (2 : ℕ) := by
+  refine lt_of_le_of_lt (degree_add_le _ _) ?_
+  refine max_lt (lt_of_le_of_lt degree_C_le (by norm_num)) ?_
+  refine lt_of_le_of_lt (degree_C_mul_X_le _) (by norm_num)
+
 theorem sEx_ok (S : Finset ℕ) (h : ∀ k ∈ S, 0 < k) : IdsDistinct ℚ S ∧ IdsNonzero ℚ S :=
   ⟨idsDistinct_of_charZero S, idsNonzero_of_charZero S h⟩
 
